@@ -287,7 +287,9 @@ def run():
 
     file = open(args.outfile, "wb")
 
-    writer = dpkt.pcapng.Writer(file, snaplen=20000)
+    # the interface description must announce a snap length that no exported frame exceeds (a re-joined record, or
+    # datagrams merged into one, can be as long as an IP packet can be)
+    writer = dpkt.pcapng.Writer(file, snaplen=262144)
 
     for buf, ts in all_decrypted_sessions:
         writer.writepkt(bytes(buf), ts)
